@@ -341,19 +341,45 @@ pub fn set_current_engine(name: &str) {
   *CURRENT_ENGINE.lock().unwrap() = name.to_string();
 }
 
+thread_local! {
+  static LAST_PANICS: std::cell::RefCell<Vec<String>> = std::cell::RefCell::new(Vec::new());
+}
+
+/// A panic that cannot unwind (a second panic escaping a destructor while the first one is
+/// unwinding: "panic in a destructor during cleanup", or a panic in a nounwind frame) aborts the
+/// process.  Inside the code under test that is a defect (a user's process dies instead of
+/// getting a panic it could catch), and without this guard the check would die with SIGABRT and
+/// report nothing.  The hook turns exactly that situation into a
+/// VIOLATION of the property under check with the running scenario as replay.  Ordinary
+/// (catchable) panics are only remembered (the last few messages go into the report) and are
+/// judged by the engines' own `catch_unwind` sites.
 pub fn install_abort_guard(quiet: bool) {
   let prev = std::panic::take_hook();
   std::panic::set_hook(Box::new(move |info| {
-    if std::thread::panicking() {
-      let msg = info.payload().downcast_ref::<&str>().map(|s| s.to_string()).or_else(|| info.payload().downcast_ref::<String>().cloned()).unwrap_or_else(|| "panic".into());
+    let msg = info.payload().downcast_ref::<&str>().map(|s| s.to_string()).or_else(|| info.payload().downcast_ref::<String>().cloned()).unwrap_or_else(|| "panic".into());
+    // `PanicHookInfo::can_unwind` is unstable; the two non-unwinding panics std raises are
+    // recognised by their fixed messages instead
+    let text = info.to_string();
+    let can_unwind = !(text.contains("panic in a destructor during cleanup") || text.contains("panic in a function that cannot unwind"));
+    if can_unwind {
+      LAST_PANICS.with(|f| {
+        let mut f = f.borrow_mut();
+        if f.len() >= 2 {
+          f.remove(0);
+        }
+        f.push(msg.chars().take(300).collect());
+      });
+    } else {
+      let before = LAST_PANICS.with(|f| f.borrow().clone());
       let case = CURRENT_CASE.with(|c| c.borrow().clone());
       if let Some((property, engine, scenario)) = case {
-        let site: String = msg.chars().take(48).map(|c| if c.is_ascii_alphanumeric() { c } else { '_' }).collect();
+        let site_src = before.last().cloned().unwrap_or_else(|| msg.clone());
+        let site: String = site_src.chars().take(48).map(|c| if c.is_ascii_alphanumeric() { c } else { '_' }).collect();
         let rep = Replay {
           property: property.clone(),
           engine,
           signature: format!("abort/double_panic/{site}"),
-          message: format!("a second panic was raised while unwinding from a first one inside the code under test (the process would abort): {msg}"),
+          message: format!("non-unwinding panic inside the code under test, the process would abort ({msg}); the panics before it: {before:?}"),
           seed: 0,
           scenario: serde_json::from_str(&scenario).unwrap_or(Value::Null),
         };
